@@ -18,30 +18,23 @@ Theorem C19_initial_state : forall src c,
 Proof. exact inv_with_capacity. Qed.
 Print Assumptions C19_initial_state.
 
-(* fill_buf is transparent whenever the buffer has room for one more byte or nothing is left to deliver; afterwards the
-   buffer is full (>= 8*capacity - 7 unread bits) or the source is exhausted.  `input = None` loses nothing. *)
+(* fill_buf is transparent at EVERY refill position (full buffer included); afterwards the buffer is full
+   (>= 8*capacity - 7 unread bits) or the source is exhausted.  `input = None` loses nothing. *)
 Theorem C19_refill_preserves_abs : forall st,
-  inv st -> (buf_bits st + 7 < 8 * cap st \/ src_rest st = []) ->
+  inv st ->
   exists st', fill_buf st = (Ok tt, st') /\ inv st' /\ cap st' = cap st /\ abs st' = abs st /\
               (8 * cap st - 7 <= buf_bits st' \/ src_rest st' = []).
 Proof. exact refill_preserves_abs. Qed.
 Print Assumptions C19_refill_preserves_abs.
 
-(* the heart of "capacity >= 16": a request for up to 121 bits (`if buf_bits() < r { fill_buf()? }`) always finds that
-   room, so it is transparent and afterwards r bits are buffered or the source is exhausted *)
+(* the heart of "capacity >= 16": after a request for up to 121 bits (`if buf_bits() < r { fill_buf()? }`) r bits are
+   buffered or the source is exhausted *)
 Theorem C19_refill_on_request : forall st r,
   inv st -> 16 <= cap st -> r <= 121 ->
   exists st', ensure r st = (Ok tt, st') /\ inv st' /\ cap st' = cap st /\ abs st' = abs st /\
               (r <= buf_bits st' \/ src_rest st' = []).
 Proof. exact refill_on_request. Qed.
 Print Assumptions C19_refill_on_request.
-
-(* without that precondition the refill is NOT transparent ("every refill position" is false for a bare fill_buf):
-   capacity 16, buffer full, fewer than 8 bits consumed => the source is declared exhausted and its bytes are lost *)
-Theorem C19_refill_any_position_refuted :
-  exists st, inv st /\ cap st = 16 /\ exists st', fill_buf st = (Ok tt, st') /\ abs st' <> abs st.
-Proof. exact refill_full_buffer_refuted. Qed.
-Print Assumptions C19_refill_any_position_refuted.
 
 Theorem C19_read_is_ideal : forall st,
   inv st -> 16 <= cap st ->
